@@ -102,6 +102,9 @@ pub enum CAct {
     ReconnectSilent,
     /// advance the virtual clock (milliseconds)
     T(u32),
+    /// the broker stops / resumes taking bytes off the transport (it stays open)
+    BrokerStall,
+    BrokerResume,
 }
 
 #[derive(Clone, Debug, Serialize, Deserialize)]
@@ -127,6 +130,9 @@ pub struct Cfg {
     /// MQTT 5: server keep-alive (seconds) announced in every CONNACK
     #[serde(default)]
     pub server_ka: Option<u16>,
+    /// capacity of the in-memory transport per direction (default 1 MiB)
+    #[serde(default)]
+    pub pipe_cap: Option<usize>,
 }
 
 impl Cfg {
@@ -146,6 +152,7 @@ impl Cfg {
             prelude: vec![],
             recv_max_next: None,
             server_ka: None,
+            pipe_cap: None,
         }
     }
     pub fn prop_static(&self) -> &'static str {
@@ -224,6 +231,10 @@ pub struct ClientWorld<P: Proto> {
     /// acknowledgement whose first bytes are written (`PartialAck`): the monitor learns of
     /// it only when the rest is written
     partial_pk: Option<Pk>,
+    /// the broker has stopped reading from the transport (`BrokerStall`)
+    broker_stalled: bool,
+    /// capacity of the in-memory transport, per direction
+    pipe_cap: usize,
     pub mon: Monitor,
     next_tag: u32,
     dead: bool,
@@ -289,8 +300,10 @@ impl<P: Proto> ClientWorld<P> {
                     return;
                 }
                 Ok(Poll::Pending) => {
-                    self.broker_read();
-                    if !self.broker_auto() {
+                    // (with a small transport buffer the client may wait for room: taking
+                    // bytes off the far end is a reason to poll it again)
+                    let n = self.broker_read();
+                    if !self.broker_auto() && n == 0 {
                         return;
                     }
                 }
@@ -305,6 +318,8 @@ impl<P: Proto> ClientWorld<P> {
                         self.partial_rest = None;
                         self.partial_pk = None;
                         self.connack_plan = None;
+                        self.broker_stalled = false;
+                        self.mon.broker_stalled(None);
                         return;
                     }
                 }
@@ -315,9 +330,14 @@ impl<P: Proto> ClientWorld<P> {
     }
 
     /// frame and log what the client wrote
-    fn broker_read(&mut self) {
-        let Some(far) = self.far.as_mut() else { return };
+    /// returns the number of bytes taken off the transport
+    fn broker_read(&mut self) -> usize {
+        if self.broker_stalled {
+            return 0;
+        }
+        let Some(far) = self.far.as_mut() else { return 0 };
         let mut tmp = [0u8; 4096];
+        let mut total = 0;
         loop {
             let n = {
                 let _g = self.rt.enter();
@@ -330,6 +350,7 @@ impl<P: Proto> ClientWorld<P> {
             if n == 0 {
                 break;
             }
+            total += n;
             self.far_buf.extend_from_slice(&tmp[..n]);
         }
         match P::decode(&mut self.far_buf) {
@@ -343,6 +364,7 @@ impl<P: Proto> ClientWorld<P> {
                 self.far_buf.clear();
             }
         }
+        total
     }
 
     /// automatic broker behaviour: answer the CONNECT of a reconnect. Returns true if
@@ -376,9 +398,10 @@ impl<P: Proto> ClientWorld<P> {
     }
 
     fn offer_transport(&mut self) {
-        let (near, far) = tokio::io::duplex(1 << 20);
+        let (near, far) = tokio::io::duplex(self.pipe_cap);
         rumqttc::verif::push_transport(near);
         self.far = Some(far);
+        self.broker_stalled = false;
         self.far_buf.clear();
         self.mon.on_new_connection();
     }
@@ -448,6 +471,8 @@ impl<P: Proto> ClientWorld<P> {
                 self.far = None;
                 self.partial_rest = None;
                 self.partial_pk = None;
+                self.broker_stalled = false;
+                self.mon.broker_stalled(None);
                 self.mon.set_partial(false);
             }
             CAct::Reconnect { sp } => {
@@ -467,6 +492,14 @@ impl<P: Proto> ClientWorld<P> {
                 self.offer_transport();
                 self.connack_plan = None;
                 self.mon.last_was_error = false;
+            }
+            CAct::BrokerStall => {
+                self.broker_stalled = true;
+                self.mon.broker_stalled(Some(self.now_ms));
+            }
+            CAct::BrokerResume => {
+                self.broker_stalled = false;
+                self.mon.broker_stalled(None);
             }
             CAct::T(ms) => {
                 // in slices of 100 ms, the client polled in between: tokio's `advance` jumps,
@@ -511,6 +544,8 @@ impl<P: Proto> World for ClientWorld<P> {
             far_buf: bytes::BytesMut::new(),
             partial_rest: None,
             partial_pk: None,
+            broker_stalled: false,
+            pipe_cap: cfg.pipe_cap.unwrap_or(1 << 20),
             mon: Monitor::new(cfg),
             next_tag: 0,
             dead: false,
@@ -559,6 +594,7 @@ impl<P: Proto> World for ClientWorld<P> {
             &self.far_buf[..],
             &self.partial_rest,
             &self.partial_pk,
+            self.broker_stalled,
             &self.connack_plan,
             self.fut.is_some(),
             self.mon.key(),
@@ -602,6 +638,9 @@ impl<P: Proto> ClientWorld<P> {
     }
     pub fn connected(&self) -> bool {
         self.far.is_some()
+    }
+    pub fn broker_is_stalled(&self) -> bool {
+        self.broker_stalled
     }
     pub fn has_partial(&self) -> bool {
         self.partial_rest.is_some()
